@@ -294,9 +294,9 @@ impl Persister {
 //@with
     fn replay_one_stored_update(&self, monitor: &mut Monitor, update_name: &UpdateName, update_res: Result<Update, IoError>) -> Result<(), IoError> { $body Ok(()) }
 //@rw R9
-    .map_err(|e| { io::Error::new(io::ErrorKind::Other, "Monitor update failed") })?
+    .map_err(|e| { io::Error::new(io::ErrorKind::Other, "Monitor update failed") })
 //@with
-    .map_err(|e: ()| -> (o: IoError) { IoError::new(ErrorKind::Other, "Monitor update failed") })?
+    .map_err(|e: ()| -> (o: IoError) { IoError::new(ErrorKind::Other, "Monitor update failed") })
 //@ret r
 //@ensures P C19 recovery-fails-as-a-whole-when-a-stored-update-cannot-be-read-or-does-not-apply-and-otherwise-applies-the-update-it-read
     update_res is Err ==> r is Err && final(monitor).applied@ == old(monitor).applied@,
